@@ -156,6 +156,21 @@ fn one_run(bi: usize, ops: &[Value], rounds: u8, tr: &mut Trace) -> RunOut {
         }
         core::future::pending::<()>().await
     };
+    // {"op": "Auto", .., "second": [node, at_ms]}: at that time a second exchange of that node sends one message that asks
+    // for no acknowledgement (with a slow network send it keeps the node's single TX buffer busy for a while)
+    let second: Option<(usize, u64)> = ops.iter().find_map(|o| o["second"].as_array().map(|x| (x[0].as_u64().unwrap() as usize, x[1].as_u64().unwrap())));
+    let app_2 = async {
+        if let Some((node, at)) = second {
+            embassy_time::Timer::at(embassy_time::Instant::from_millis(at)).await;
+            let m = if node == 0 { &a } else { &b };
+            let sid = m.with_state(|st| st.verif_snapshot().sessions.sessions.iter().find(|x| x.local_sess_id == 1).map(|x| x.id));
+            if let Some(Ok(mut ex)) = sid.map(|sid| Exchange::initiate_for_session(m, &crypto, sid)) {
+                let _ = ex.send(MessageMeta::new(PROTO, 99, false), &[99; 8]).await;
+                core::future::pending::<()>().await;
+            }
+        }
+        core::future::pending::<()>().await
+    };
     let app_b = async {
         let r: Result<(), Error> = async {
             let mut ex = Exchange::accept(&b).await?;
@@ -187,7 +202,7 @@ fn one_run(bi: usize, ops: &[Value], rounds: u8, tr: &mut Trace) -> RunOut {
         a.run(&crypto, Tx(net.clone(), 0), Rx(net.clone(), 0), NoNetwork),
         b.run(&crypto, Tx(net.clone(), 1), Rx(net.clone(), 1), NoNetwork),
         app_a,
-        app_b
+        embassy_futures::select::select(app_b, app_2)
     ));
 
     let mut dec = TapDecoder::default();
